@@ -26,6 +26,7 @@ CLAUSES = {
     12: "D26_all_ints_with_ellipsis_not_last_returns_scalar",
     13: "D29_empty_bool_index_on_nonempty_axis",
     14: "D30_multi_array_mask_unchecked_out_of_bounds_access",
+    15: "input_not_wellformed",
 }
 KINDS = {1: "representation", 2: "value", 3: "value", 4: "value", 5: "value", 6: "value", 7: "value", 8: "harness",
          9: "spec"}
@@ -100,23 +101,39 @@ def entry_obj(e):
 
 
 # ------------------------------------------------------------------ implementation side
+def _scipy_matrix(spec):
+    """a SciPy CSR/CSC matrix built DIRECTLY from (data, indices, indptr): nothing is sorted or summed"""
+    import numpy as np
+    import scipy.sparse as sp
+    cls = sp.csr_matrix if spec["fmt"] == "csr" else sp.csc_matrix
+    return cls((np.array(spec["data"], dtype=np.int64), np.array(spec["indices"], dtype=np.int32),
+                np.array(spec["indptr"], dtype=np.int32)), shape=tuple(spec["shape"]))
+
+
 def _build_input(case):
+    """-> (the array to index, reference dense array or None)"""
     import numpy as np  # noqa: F401
     import sparse
+    if case.get("scipy"):
+        import scipy.sparse as sp
+        m = _scipy_matrix(case["scipy"])
+        ref = np.asarray(m.toarray())
+        m = _scipy_matrix(case["scipy"])      # a fresh one: toarray() may have touched SciPy's cached flags
+        return eval(case["op"], {"sparse": sparse, "np": np, "sp": sp, "m": m}), ref  # noqa: S307
     arrs = [vlib.build_array(s, idx_dtype=case.get("idx_dtype")) for s in case["base"]]
     if case.get("op"):
         env = {"sparse": sparse, "np": np}
         for name, a in zip("abcd", arrs, strict=False):
             env[name] = a
-        return eval(case["op"], env)  # noqa: S307  (our own fixed op strings)
-    return arrs[0]
+        return eval(case["op"], env), None  # noqa: S307  (our own fixed op strings)
+    return arrs[0], None
 
 
 def impl_getitem(case):
     import numpy as np
     import sparse  # noqa: F401
     try:
-        x = _build_input(case)
+        x, ref = _build_input(case)
     except Exception as ex:  # noqa: BLE001  (the producing operation failed: not this property's business)
         return {"skip": type(ex).__name__}
     inp = vlib.plain(x)
@@ -128,12 +145,17 @@ def impl_getitem(case):
         out = vlib.plain(x[key])
     except Exception as ex:  # noqa: BLE001
         out = vlib.plain(ex)
+    extra = {}
     try:
         d = x.todense()
+        if ref is not None:
+            # the Spec is applied to what SciPy says the matrix is (m.toarray()), not to the converted array
+            extra["todense_ok"] = bool(d.shape == ref.shape and np.array_equal(d, ref))
+            d = ref
         npo = vlib.plain(d[key])
     except Exception as ex:  # noqa: BLE001
         npo = vlib.plain(ex)
-    return {"inp": inp, "out": out, "np": npo}
+    return dict({"inp": inp, "out": out, "np": npo}, **extra)
 
 
 def _tl(xs):
@@ -416,6 +438,89 @@ def derived_inputs(rng, n, extents):
     return out
 
 
+SCIPY_OPS = ["sparse.GCXS.from_scipy_sparse(m)", "sparse.GCXS(m)", "sparse.asarray(m, format='gcxs')",
+             "sparse.asarray(m, format='csr')", "sparse.asarray(m, format='csc')",
+             "sparse.GCXS.from_scipy_sparse(m).T", "sparse.GCXS(m, compressed_axes=[1])"]
+
+
+def scipy_spec(rng, kind, fmt=None, shape=None):
+    """(data, indices, indptr) of a CSR/CSC matrix, written down directly.
+       kind: canonical (strictly increasing minor indices in every row), unsorted (some row out of order, no repeats),
+             dups (non-decreasing with a repeated entry: SciPy's has_sorted_indices but not has_canonical_format),
+             unsorted_dups (both)"""
+    fmt = fmt or rng.choice(["csr", "csc"])
+    shape = shape or [rng.choice([1, 2, 3, 4]), rng.choice([2, 3, 4, 5])]
+    major, minor = (shape[0], shape[1]) if fmt == "csr" else (shape[1], shape[0])
+    while True:
+        data, indices, indptr = [], [], [0]
+        marked = False
+        for _ in range(major):
+            k = rng.randint(0, min(minor, 3))
+            cols = sorted(rng.sample(range(minor), k))
+            if kind in ("dups", "unsorted_dups") and cols and rng.random() < 0.7:
+                for _ in range(rng.randint(1, 2)):
+                    cols.append(rng.choice(cols))
+                cols.sort()
+                marked = True
+            if kind in ("unsorted", "unsorted_dups") and len(set(cols)) >= 2 and rng.random() < 0.8:
+                c2 = list(cols)
+                while c2 == sorted(c2):
+                    rng.shuffle(c2)
+                cols = c2
+                marked = marked or kind == "unsorted"
+            indices.extend(cols)
+            data.extend(rng.choice([-3, -1, 1, 2, 4, 5]) for _ in cols)
+            indptr.append(len(indices))
+        if kind == "canonical" or marked:
+            if kind == "unsorted_dups" and len(indices) == len(set(zip(_rows_of(indptr), indices, strict=True))):
+                continue
+            return {"fmt": fmt, "shape": shape, "data": data, "indices": indices, "indptr": indptr, "kind": kind}
+
+
+def _rows_of(indptr):
+    return [r for r in range(len(indptr) - 1) for _ in range(indptr[r + 1] - indptr[r])]
+
+
+def scipy_cases(rng, tier):
+    """indexing arrays that were produced from SciPy matrices: ints, slices (both signs), one index array"""
+    cases = []
+    n = 36 if tier == "quick" else 200
+    kinds = ["dups", "dups", "canonical", "unsorted", "unsorted_dups", "dups"]
+    for t in range(n):
+        spec = scipy_spec(rng, kinds[t % len(kinds)])
+        shape = spec["shape"]
+        # positions SciPy holds more than once
+        if spec["fmt"] == "csr":
+            pos = list(zip(_rows_of(spec["indptr"]), spec["indices"], strict=True))
+        else:
+            pos = [(i, j) for j, i in zip(_rows_of(spec["indptr"]), spec["indices"], strict=True)]
+        rep = [p for p in set(pos) if pos.count(p) > 1] or pos or [(0, 0)]
+        i0, j0 = rng.choice(rep)
+        directed = [
+            [["i", i0], ["i", j0]],
+            [["i", i0 - shape[0]], ["i", j0 - shape[1]]],
+            [["i", i0]],
+            [["s", None, None, None], ["i", j0]],
+            [["i", i0], ["s", None, None, -1]],
+            [["s", None, None, -1], ["s", None, None, rng.choice([1, 2, -2])]],
+            [["E"], ["i", j0]],
+            [["s", None, None, None], ["a", [j0, 0, j0], rng.random() < 0.5]],
+            [["a", [i0, 0, i0], rng.random() < 0.5], ["s", None, None, None]],
+            [["s", None, None, None], ["b", [c == j0 or rng.random() < 0.3 for c in range(shape[1])], True]],
+        ]
+        pats = [p for p in patterns(2, rng, "quick") if in_grammar_kinds(p)]
+        rnd = []
+        for _ in range(4):
+            inst = instantiate(rng, rng.choice(pats), shape)
+            if inst is not None:
+                rnd.append(inst)
+        ops = rng.sample(SCIPY_OPS, 2 if tier == "quick" else 4)
+        for op in ops:
+            for inst in rng.sample(directed, 5 if tier == "quick" else len(directed)) + rnd[:2 if tier == "quick" else 4]:
+                cases.append({"scipy": spec, "base": [], "op": op, "index": inst, "cls": "scipy:" + spec["kind"]})
+    return cases
+
+
 def api_cases(tier, seed):
     rng = random.Random(seed * 7919 + 17)
     cases = []
@@ -491,6 +596,8 @@ def api_cases(tier, seed):
             if inst is None:
                 continue
             cases.append({"base": base, "op": op, "index": inst, "cls": "op:" + "".join(dpat)})
+    # inputs produced from SciPy matrices written down as (data, indices, indptr)
+    cases.extend(scipy_cases(rng, tier))
     # directed: the documented defect witnesses
     a5 = {"shape": [5], "coords": [[0], [1], [2], [3], [4]], "data": [1, 2, 3, 4, 5], "fill": 0, "caxes": None}
     y = vlib.gen_array_spec(random.Random(1), shape=[2, 3, 4], fills=(0,), density=1.0)
@@ -515,6 +622,13 @@ def api_cases(tier, seed):
 
 
 def replay_of(case):
+    if case.get("scipy"):
+        key = index_py(case["index"])
+        return ("import sys; sys.path.insert(0,'/verif/tools'); sys.path.insert(0,'/verif/tools/props'); import sparse, numpy as np, scipy.sparse as sp; "
+                "from props.c02_index import _scipy_matrix; " + f"m=_scipy_matrix({case['scipy']!r}); ref=m.toarray(); m=_scipy_matrix({case['scipy']!r}); "
+                f"x={case['op']}; k={key}; print('scipy/numpy:', repr(ref[k])); r=x[k]; "
+                "print('sparse:', repr(r), repr(r.todense()) if hasattr(r,'todense') else ''); "
+                "print('stored:', x.data, x.indices, x.indptr, 'todense ok:', np.array_equal(x.todense(), ref))")
     specs = []
     for i, s in enumerate(case["base"]):
         specs.append(f"{'abcd'[i]}=vlib.build_array({s!r}" + (f", idx_dtype={case['idx_dtype']!r}" if case.get("idx_dtype") else "") + ")")
@@ -671,6 +785,10 @@ def campaign_index(build, tier, seed, report, budget=1):
             continue
         fmt = FMT[r["inp"]["k"]]
         unsigned = str(r["inp"].get("idx_dtype", "")).startswith("uint")
+        if r.get("todense_ok") is False:
+            viol.append({"property": "C02", "op": "getitem", "kind": "value", "clause": None,
+                         "what": "the array produced from the SciPy matrix does not densify to m.toarray() (producer: " + str(c.get("op")) + ")",
+                         "producer": c.get("op"), "case": {"scipy": c.get("scipy"), "input": r["inp"]}, "replay_py": replay_of(c)})
         kept.append((c, r))
         lits.append(vpair(vZ(fmt), vbool(unsigned), vlib.sarr_lit(r["inp"]), index_lit(c["index"]),
                           vlib.sarr_lit(r["out"]), vlib.sarr_lit(r["np"])))
@@ -695,6 +813,11 @@ def campaign_index(build, tier, seed, report, budget=1):
             continue
         what = KIND_WHAT.get(kind)
         vkind = KINDS.get(kind, "value")
+        if cl == 15:
+            vkind = "representation"
+            what = ("the array being indexed is not in canonical form (unsorted or REPEATED entries inside a row, or inconsistent "
+                    "indptr): a well-formedness failure of the producer " + str(c.get("op") or "constructor") +
+                    "; indexing such an array reads only the first of the repeated entries")
         if cl == 14:
             # the output happens to agree with NumPy, but the jitted _compute_multi_axis_multi_mask read indices[ixx]
             # and wrote full_idx[ix] past the end of both arrays (its py_func raises IndexError on the same input)
@@ -702,7 +825,7 @@ def campaign_index(build, tier, seed, report, budget=1):
         viol.append({"property": "C02", "op": "getitem", "kind": vkind,
                      "clause": CLAUSES.get(cl, f"clause{cl}"), "what": what,
                      "format": r["inp"]["k"], "producer": c.get("op"),
-                     "case": {"index": index_py(c["index"]), "input": r["inp"], "class": c.get("cls")},
+                     "case": {"index": index_py(c["index"]), "input": r["inp"], "class": c.get("cls"), "scipy": c.get("scipy")},
                      "impl": r["out"], "expected_numpy": r["np"], "replay_py": replay_of(c)})
     # ---------------- kernel level
     kcases = kernel_cases(tier, seed)
